@@ -562,6 +562,8 @@ func BuildFromAliasedTable(query *Query, as string, expr sqlparser.SimpleTableEx
 		}
 	case *sqlparser.DerivedTable:
 		{
+			// a join identifies its sides by their aliases
+			query.ident = as
 			subquery, err := Prepare(query.data, expr.Select, query.options)
 			if err != nil {
 				return err
